@@ -1,12 +1,12 @@
 /-- `BondDescriptor.is_compatible` (bond.py), translated statement by statement. -/
 def isCompatible (a b : Desc) : Bool :=
-  if (a.order != b.order) then false else
-  if (a.id != b.id) then false else
-  if ((a.sym == Sym.none) || (b.sym == Sym.none)) then false else
-  if ((a.sym == Sym.dollar) && (b.sym == Sym.dollar)) then true else
-  if ((a.sym == Sym.lt) && (b.sym == Sym.gt)) then true else
-  if ((a.sym == Sym.gt) && (b.sym == Sym.lt)) then true else
-  false
+  (if (a.order != b.order) then false else
+  (if (a.id != b.id) then false else
+  (if ((a.sym == Sym.none) || (b.sym == Sym.none)) then false else
+  (if ((a.sym == Sym.dollar) && (b.sym == Sym.dollar)) then true else
+  (if ((a.sym == Sym.lt) && (b.sym == Sym.gt)) then true else
+  (if ((a.sym == Sym.gt) && (b.sym == Sym.lt)) then true else
+  false))))))
 
 /-- the bond order if-chain of `BondDescriptor.__init__` (last matching test wins). -/
 def orderOfPrefix (p : List Char) : Order :=
